@@ -517,6 +517,31 @@ theorem src_sync_bound :
     "Sync" ∈ Generated.global_set_bounds ∧ "'static" ∈ Generated.global_set_bounds
     ∧ "Recorder" ∈ Generated.global_set_bounds ∧ "'static" ∈ Generated.cell_set_bounds := by decide
 
+/-- obligation (round 7): the names the two pinned bodies use mean what the model assumes. The file imports exactly
+    `super::{Recorder, SetRecorderError}` and `std::{cell::UnsafeCell, sync::atomic::{AtomicUsize, Ordering}}` (no
+    glob, no alias, no crate-local shim) and declares exactly the three constants, the struct, ONE impl block with
+    `new`/`set`/`try_load` and the two UNSAFE impls — so no local `mod Ordering`, no wrapper type named
+    `AtomicUsize`, no second impl can stand between the tokens `Ordering::Acquire`/`Release` (`src_orderings_ok`) and
+    the std atomics; neither body declares an item of its own. The state constants are the model's 0/1/2 (`new()`
+    starts at `UNINITIALIZED`, the model's initial state), the field holding the state IS an `AtomicUsize`, the
+    recorder slot an `UnsafeCell<Option<&'static dyn Recorder>>`; `try_load` compares the loaded state with
+    `INITIALIZED` and `set` takes the winning arm only on `Ok(UNINITIALIZED)`. -/
+theorem src_cell_file :
+    Generated.cell_uses = ["usesuper::{Recorder,SetRecorderError};",
+                           "usestd::{cell::UnsafeCell,sync::atomic::{AtomicUsize,Ordering},};"]
+    ∧ Generated.cell_items = ["const UNINITIALIZED: usize", "const INITIALIZING: usize", "const INITIALIZED: usize",
+        "pub struct RecorderOnceCell", "impl RecorderOnceCell", "UNSAFE impl Send for RecorderOnceCell",
+        "UNSAFE impl Sync for RecorderOnceCell"]
+    ∧ Generated.cell_state_consts
+        = [("UNINITIALIZED", "usize", (init []).state), ("INITIALIZING", "usize", 1), ("INITIALIZED", "usize", 2)]
+    ∧ Generated.cell_fields = "{recorder:UnsafeCell<Option<&'staticdynRecorder>>,state:AtomicUsize,}"
+    ∧ Generated.cell_new_body = "{Self{recorder:UnsafeCell::new(None),state:AtomicUsize::new(UNINITIALIZED)}}"
+    ∧ Generated.cell_impl_fns = ["new", "set", "try_load"]
+    ∧ Generated.cell_load_condition = "self.state.load(Ordering::" ++ Generated.cell_load_ordering ++ ")!=INITIALIZED"
+    ∧ Generated.cell_set_arms = ["Ok(UNINITIALIZED)", "_"]
+    ∧ Generated.cell_unsafe_blocks = 2
+    ∧ Generated.cell_body_local_items = [] := by decide
+
 /-! ### non-vacuity: a concrete race of two installers and two loaders -/
 
 example :
@@ -721,7 +746,7 @@ open MetricsVerif.GlobalRec in
     panicking, nested to any depth, from inside a closure, under local recorders — in any order), if every
     lookup the thread completed answered `Some r` then every observation is `Delivered r`: a caught panic or a
     nested emission earlier in the program does not change where the later ones go -/
-theorem observe_all_delivered (r : Nat) (p : List GCall) (hp : ∀ c ∈ p, ∀ x, c ≠ GCall.install x) :
+theorem observe_all_delivered (r : Nat) (p : List GCall) (hp : ∀ c ∈ p, c.installs = false) :
     ∀ (rs : List Res), (∀ x ∈ rs, x = Res.some r) → ∀ g ∈ observe p rs, Delivered r g := by
   induction p with
   | nil => intro rs _ g hg; simp [observe] at hg
@@ -729,7 +754,9 @@ theorem observe_all_delivered (r : Nat) (p : List GCall) (hp : ∀ c ∈ p, ∀ 
     have ihc := ih (fun c hc => hp c (List.mem_cons_of_mem _ hc))
     intro rs hrs g hg
     cases c with
-    | install x => exact absurd rfl (hp _ (by simp) x)
+    | install x => have := hp (.install x) (List.mem_cons_self ..); simp [GCall.installs] at this
+    | installIn x => have := hp (.installIn x) (List.mem_cons_self ..); simp [GCall.installs] at this
+    | installLocal l x => have := hp (.installLocal l x) (List.mem_cons_self ..); simp [GCall.installs] at this
     | emitLocal l =>
       simp only [observe, List.mem_cons] at hg
       rcases hg with rfl | hg
@@ -817,6 +844,231 @@ example :
     GlobalRec.gobserve progs s
       = [[.sent .noop, .sentAll [.noop], .sentAll [.noop, .noop], .unwound (.localRec 7)]]
     ∧ (s.threads.map (·.pc)) = [.done] := by
+  decide
+
+/-! ### round 7: program order on ONE thread, installing threads included; installations made from inside a
+    dispatched call or a local scope -/
+
+/-- a result that proves the cell initialised to whoever got it: an installation that succeeded, a lookup that
+    found a recorder -/
+def wins : Res → Bool
+  | .ok => true
+  | .some _ => true
+  | _ => false
+
+/-- a result a call may still give once the cell is initialised (`LateRes` for some recorder) -/
+def late : Res → Bool
+  | .err _ => true
+  | .some _ => true
+  | _ => false
+
+/-- one thread's results read in program order: after the first winning entry only late ones -/
+def chainFrom : Bool → List Res → Bool
+  | _, [] => true
+  | won, x :: xs => (!won || late x) && chainFrom (won || wins x) xs
+
+theorem chainFrom_snoc (w : Bool) (l : List Res) (z : Res) :
+    chainFrom w (l ++ [z]) = (chainFrom w l && (!(w || l.any wins) || late z)) := by
+  induction l generalizing w with
+  | nil => simp [chainFrom]
+  | cons x xs ih =>
+    simp only [List.cons_append, chainFrom, ih, List.any_cons]
+    cases w <;> cases wins x <;> cases late x <;> simp
+
+theorem chainFrom_true_all (l : List Res) (h : chainFrom true l = true) : ∀ y ∈ l, late y = true := by
+  induction l with
+  | nil => intro y hy; cases hy
+  | cons x xs ih =>
+    simp only [chainFrom, Bool.not_true, Bool.false_or, Bool.true_or, Bool.and_eq_true] at h
+    intro y hy
+    rcases List.mem_cons.mp hy with rfl | hy
+    · exact h.1
+    · exact ih h.2 y hy
+
+theorem chainFrom_split (w : Bool) (pre : List Res) (x : Res) (post : List Res)
+    (h : chainFrom w (pre ++ x :: post) = true) (hx : wins x = true) : ∀ y ∈ post, late y = true := by
+  induction pre generalizing w with
+  | nil =>
+    simp only [List.nil_append, chainFrom, hx, Bool.or_true, Bool.and_eq_true] at h
+    exact chainFrom_true_all post h.2
+  | cons p ps ih =>
+    simp only [List.cons_append, chainFrom, Bool.and_eq_true] at h
+    exact ih _ h.2
+
+theorem late_of_LateRes (r : Nat) (x : Res) (h : LateRes r x) : late x = true := by
+  rcases h with ⟨e, rfl⟩ | rfl <;> rfl
+
+theorem any_wins_state2 (o : Ord) (s : Sys) (h : Inv o s) (tid : Nat) (t : Thread) (hg : s.threads[tid]? = some t)
+    (hw : t.results.any wins = true) : s.state = 2 := by
+  obtain ⟨x, hx, hwx⟩ := List.any_eq_true.mp hw
+  cases x with
+  | some r => exact ((h.thr t (List.mem_of_getElem? hg)).some_res r hx).1
+  | ok =>
+    have hle := okN_le_okCount s tid t hg
+    have hpos : 0 < okN t := by
+      unfold okN
+      exact List.countP_pos_iff.mpr ⟨Res.ok, hx, by simp⟩
+    have := h.st_le
+    rcases Nat.lt_or_ge s.state 1 with h0 | h1
+    · have := h.c0 (by omega); omega
+    · rcases Nat.lt_or_ge s.state 2 with h1' | h2
+      · have := h.c1 (by omega); omega
+      · omega
+  | err e => simp [wins] at hwx
+  | none => simp [wins] at hwx
+  | torn => simp [wins] at hwx
+
+theorem eff_results_cases {o : Ord} {s s' : Sys} {t t' : Thread} (e : Eff o s t s' t') :
+    t'.results = t.results ∨ ∃ x, t'.results = t.results ++ [x] := by
+  cases e with
+  | noop => exact Or.inl rfl
+  | start t' hp hres hsyn h1 h2' h3 => exact Or.inl hres
+  | casWin hp h0 => exact Or.inl rfl
+  | casLose x hp h0 => exact Or.inr ⟨_, advance_results _ _⟩
+  | write x hp => exact Or.inl rfl
+  | store hp => exact Or.inr ⟨_, advance_results _ _⟩
+  | loadNone hp hn => exact Or.inr ⟨_, advance_results _ _⟩
+  | loadInit hp _ => exact Or.inl rfl
+  | read hp => exact Or.inr ⟨_, advance_results _ _⟩
+
+/-- every thread's results are in program order -/
+def ProgOrd (s : Sys) : Prop := ∀ t ∈ s.threads, chainFrom false t.results = true
+
+theorem init_progOrd (progs : List (List Call)) : ProgOrd (init progs) := by
+  intro t ht
+  simp only [init, List.mem_map] at ht
+  obtain ⟨p, _, rfl⟩ := ht
+  rfl
+
+theorem step_progOrd (o : Ord) (s : Sys) (tid : Nat) (h : Inv o s) (hp : ProgOrd s) : ProgOrd (step o s tid) := by
+  unfold step
+  cases hg : s.threads[tid]? with
+  | none => exact hp
+  | some t =>
+    simp only
+    have hth := stepThread_threads o s t
+    have e := stepThread_eff o s t
+    generalize (stepThread o s t).1 = s' at hth e
+    generalize (stepThread o s t).2 = t' at e
+    intro u hu
+    simp only at hu
+    rw [hth] at hu
+    obtain ⟨k, hk⟩ := List.getElem?_of_mem hu
+    rw [getElem?_setAt] at hk
+    split at hk
+    · injection hk with hk
+      subst hk
+      have ht := hp t (List.mem_of_getElem? hg)
+      rcases eff_results_cases e with hr | ⟨x, hr⟩
+      · rw [hr]; exact ht
+      · rw [hr, chainFrom_snoc, ht]
+        simp only [Bool.false_or, Bool.true_and, Bool.or_eq_true, Bool.not_eq_eq_eq_not, Bool.not_true]
+        cases hw : t.results.any wins with
+        | false => exact Or.inl rfl
+        | true =>
+          right
+          have h2 := any_wins_state2 o s h tid t hg hw
+          obtain ⟨r, hc⟩ := h.cell2 h2
+          have hc2 := h.c2 h2
+          have hle := critN_le_critCount s tid t hg
+          obtain ⟨extra, he, hl⟩ := eff_results_after_init e h2 r hc (by omega)
+          rw [hr] at he
+          have : extra = [x] := (List.append_cancel_left he).symm
+          exact late_of_LateRes r x (hl x (by simp [this]))
+    · exact hp u (List.mem_of_getElem? hk)
+
+theorem run_progOrd (o : Ord) (sched : List Nat) : ∀ s, Inv o s → ProgOrd s → ProgOrd (run o s sched) := by
+  induction sched with
+  | nil => intro s _ h; exact h
+  | cons t ts ih => intro s h hp; exact ih _ (step_inv o s t h) (step_progOrd o s t h hp)
+
+/-- **program order on one thread, installers included** (closes the gap left by `observe_all_delivered`, which
+    needs a program without installations): for ANY programs, ANY number of threads and EVERY schedule, split any
+    thread's results (oldest first) at an entry that is a successful installation or a lookup that found a
+    recorder. Then the cell holds a recorder `r` and every LATER result of that thread is an installation rejected
+    or a lookup that found `r` — never the no-op fallback, never another recorder, never a second `Ok`. In
+    particular a thread that installs (at top level, from inside a `with_recorder` closure or inside a local
+    scope — `toCell`) and then emits reaches its own recorder. -/
+theorem program_order (o : Ord) (progs : List (List Call)) (sched : List Nat)
+    (t : Thread) (ht : t ∈ (run o (init progs) sched).threads) (pre post : List Res) (x : Res)
+    (hs : t.results = pre ++ x :: post) (hx : x = Res.ok ∨ ∃ r, x = Res.some r) :
+    ∃ r, (run o (init progs) sched).cell = some r ∧ ∀ y ∈ post, LateRes r y := by
+  have h := reachable_inv o progs sched
+  have hp := run_progOrd o sched _ (init_inv o progs) (init_progOrd progs) t ht
+  have hwx : wins x = true := by rcases hx with rfl | ⟨r, rfl⟩ <;> rfl
+  obtain ⟨k, hk⟩ := List.getElem?_of_mem ht
+  have h2 : (run o (init progs) sched).state = 2 :=
+    any_wins_state2 o _ h k t hk (by rw [hs]; simp [hwx])
+  obtain ⟨r, hc⟩ := h.cell2 h2
+  refine ⟨r, hc, ?_⟩
+  rw [hs] at hp
+  intro y hy
+  have hl := chainFrom_split false pre x post hp hwx y hy
+  cases y with
+  | err e => exact Or.inl ⟨e, rfl⟩
+  | some r' =>
+    have := ((h.thr t ht).some_res r' (by rw [hs]; simp [hy])).2
+    rw [hc] at this
+    injection this with this
+    subst this
+    exact Or.inr rfl
+  | ok => simp [late] at hl
+  | none => simp [late] at hl
+  | torn => simp [late] at hl
+
+open MetricsVerif.GlobalRec in
+/-- `program_order` for API programs (installations inside closures and local scopes included), on the process-wide
+    cell -/
+theorem gprogram_order (o : Ord) (gprogs : List (List GCall)) (sched : List Nat)
+    (t : Thread) (ht : t ∈ (grun o gprogs sched).threads) (pre post : List Res) (x : Res)
+    (hs : t.results = pre ++ x :: post) (hx : x = Res.ok ∨ ∃ r, x = Res.some r) :
+    ∃ r, (grun o gprogs sched).cell = some r ∧ ∀ y ∈ post, LateRes r y :=
+  program_order o (gprogs.map toCell) sched t ht pre post x hs hx
+
+open MetricsVerif.GlobalRec in
+/-- what a `with_recorder` closure that installs and then emits observes, in terms of the three cell answers:
+    if its installation SUCCEEDED (whatever the outer lookup had found — necessarily nothing) and the lookup after it
+    gave a late answer that is a lookup answer, the inner emission reached the recorder just installed; if the OUTER
+    emission had reached a recorder `r`, the installation is rejected and the inner emission reaches `r` again -/
+theorem closure_install_observed (c : Nat) (cs : List GCall) (r₁ r₂ r₃ : Res) (rs : List Res) :
+    observe (.installIn c :: cs) (r₁ :: r₂ :: r₃ :: rs)
+      = .closureInstall (dispatch none r₁) r₂ (dispatch none r₃) :: observe cs rs
+    ∧ (∀ r, LateRes r r₃ → (∀ e, r₃ ≠ Res.err e) → dispatch none r₃ = .global r) := by
+  refine ⟨by simp [observe], ?_⟩
+  intro r hl hne
+  rcases hl with ⟨e, he⟩ | rfl
+  · exact absurd he (hne e)
+  · rfl
+
+open MetricsVerif.GlobalRec in
+/-- an installation made inside a local scope is an installation on the GLOBAL cell (one `set`, no lookup), and the
+    emission next to it goes to the local recorder whatever the cell holds -/
+theorem scoped_install_observed (l c : Nat) (cs : List GCall) (r : Res) (rs : List Res) :
+    toCell (.installLocal l c :: cs) = Call.set c :: toCell cs
+    ∧ observe (.installLocal l c :: cs) (r :: rs) = .scopedInstall r l :: observe cs rs := by
+  exact ⟨rfl, by simp [observe]⟩
+
+/-! non-vacuity of round 7 -/
+
+/-- thread 0 emits from a closure (no-op), installs recorder 3 from INSIDE that closure and emits again (reaches 3),
+    then emits at top level (reaches 3); thread 1 installs inside a local scope, is rejected, its scoped emission goes
+    to the local recorder and its next plain emission to recorder 3 -/
+example :
+    let progs : List (List GlobalRec.GCall) := [[.installIn 3, .emit], [.installLocal 21 4, .emit]]
+    let s := GlobalRec.grun { storeRelease := true, loadAcquire := true } progs
+      [0, 1, 0, 0, 1, 0, 0, 0, 0, 0, 0, 1, 1, 1, 0, 0]
+    GlobalRec.gobserve progs s =
+      [[.closureInstall .noop .ok (.global 3), .sent (.global 3)], [.scopedInstall (.err 4) 21, .sent (.global 3)]] := by
+  decide
+
+/-- the installation inside the local scope wins; the closure of thread 0 then sees: outer no-op, rejected, inner
+    reaches recorder 4 -/
+example :
+    let progs : List (List GlobalRec.GCall) := [[.installIn 3, .emit], [.installLocal 21 4]]
+    let s := GlobalRec.grun { storeRelease := true, loadAcquire := true } progs
+      [0, 1, 0, 1, 1, 1, 0, 0, 0, 0, 0, 0, 0]
+    GlobalRec.gobserve progs s =
+      [[.closureInstall .noop (.err 3) (.global 4), .sent (.global 4)], [.scopedInstall .ok 21]] := by
   decide
 
 end MetricsVerif.C02
